@@ -112,6 +112,7 @@ func runC14(t *mon.T, raw json.RawMessage) {
 	payload := refcar.EncodeV1(content.Roots, content.NilRoots, content.Blocks)
 	ref, _ := refcar.DecodeV1(payload, false)
 	file := payload
+	zeroEOF := false
 	switch d.Container {
 	case "v2":
 		file = refcar.EncodeV2(payload, refcar.V2Opts{Index: refcar.BuildIndex(refcar.CodecMhIndexSorted, refcar.ExpectedIndexRecords(ref, refcar.CodecMhIndexSorted, false))})
@@ -119,8 +120,21 @@ func runC14(t *mon.T, raw json.RawMessage) {
 		file = refcar.EncodeV2(payload, refcar.V2Opts{DataPadding: uint64(1 + r.Intn(300)), IndexPadding: uint64(r.Intn(50)), Index: refcar.BuildIndex(refcar.CodecIndexSorted, refcar.ExpectedIndexRecords(ref, refcar.CodecIndexSorted, false))})
 	case "v2-indexless":
 		file = refcar.EncodeV2(payload, refcar.V2Opts{DataPadding: uint64(r.Intn(5))})
+	case "v1-nullpad":
+		// null bytes after the last section, read with ZeroLengthSectionAsEOF: whichever call reaches
+		// the padding reports the clean end
+		zeroEOF = true
+		file = append(append([]byte{}, payload...), make([]byte, 1+r.Intn(40))...)
+	case "v2-nullpad-payload":
+		// the same padded payload wrapped: the padding lies inside the declared payload
+		zeroEOF = true
+		o := refcar.V2Opts{DataPadding: uint64(r.Intn(5))}
+		if r.Intn(2) == 0 {
+			o.Index = refcar.BuildIndex(refcar.CodecMhIndexSorted, refcar.ExpectedIndexRecords(ref, refcar.CodecMhIndexSorted, false))
+		}
+		file = refcar.EncodeV2(append(append([]byte{}, payload...), make([]byte, 1+r.Intn(40))...), o)
 	}
-	a, err := refcar.Decode(file, false)
+	a, err := refcar.Decode(file, zeroEOF)
 	if err != nil {
 		panic(err)
 	}
@@ -149,7 +163,7 @@ func runC14(t *mon.T, raw json.RawMessage) {
 			strings = append(strings, r.Uint32())
 		}
 	} else {
-		for s := uint32(0); s < 1<<uint(n); s++ {
+		for s := uint32(0); s < 1<<uint(n+1); s++ { // n blocks and the call that finds the end
 			strings = append(strings, s)
 		}
 	}
@@ -157,6 +171,9 @@ func runC14(t *mon.T, raw json.RawMessage) {
 	var opts []carv2.Option
 	if d.TrustedCAR {
 		opts = append(opts, carv2.WithTrustedCAR(true))
+	}
+	if zeroEOF {
+		opts = append(opts, carv2.ZeroLengthSectionAsEOF(true))
 	}
 	if d.Seed%3 == 0 {
 		// both read limits exactly at what the archive needs: the header limit at the header body, the
@@ -337,12 +354,12 @@ func c14One(t *mon.T, d c14Desc, sn string, src io.Reader, cs uint32, n int, ref
 
 func genC14(g *mon.G) {
 	r := gen.Rand(g.Seed)
-	conts := []string{"v1", "v2", "v2-pad", "v2-indexless"}
-	for i := 0; i < g.Pick(160, 1500); i++ {
-		g.Emit(c14Desc{Seed: r.Int63(), Container: conts[i%4], MaxBlocks: g.Pick(6, 10), TrustedCAR: r.Intn(4) == 0})
+	conts := []string{"v1", "v2", "v2-pad", "v2-indexless", "v1-nullpad", "v2-nullpad-payload"}
+	for i := 0; i < g.Pick(180, 1500); i++ {
+		g.Emit(c14Desc{Seed: r.Int63(), Container: conts[i%len(conts)], MaxBlocks: g.Pick(6, 10), TrustedCAR: r.Intn(4) == 0})
 	}
 	for i := 0; i < g.Pick(60, 600); i++ {
-		g.Emit(c14Desc{Seed: r.Int63(), Container: conts[i%4], MaxBlocks: 25, Random: g.Pick(20, 100)})
+		g.Emit(c14Desc{Seed: r.Int63(), Container: conts[i%len(conts)], MaxBlocks: 25, Random: g.Pick(20, 100)})
 	}
 }
 
@@ -354,6 +371,6 @@ func init() {
 		Assumptions: []string{"reference section table gives the true offsets", "Reader.DataReader() is included as a seekable source although the property's quantifier names only bytes.Reader, plain reader and *os.File"},
 		Gen:         genC14,
 		Run:         runC14,
-		MinCover:    map[string]int{"container:v1": 5, "container:v2-pad": 5, "op:SkipNext:plain io.Reader": 100, "op:SkipNext:os.File": 100, "op:SkipNext:bytes.Reader": 100, "op:Next:Reader.DataReader": 100, "v2-consumption-checked": 100},
+		MinCover:    map[string]int{"container:v1": 5, "container:v2-pad": 5, "container:v2-nullpad-payload": 5, "container:v1-nullpad": 5, "op:SkipNext:plain io.Reader": 100, "op:SkipNext:os.File": 100, "op:SkipNext:bytes.Reader": 100, "op:Next:Reader.DataReader": 100, "v2-consumption-checked": 100},
 	})
 }
